@@ -12,7 +12,7 @@ INIT_PROJ = "INIT,00,f=-,x=0,pp=0,ping=-,pong=-,sf=-,ff=-,h=0,s=0,w=0,os=1,H="
 
 
 class ClientTrace(Trace):
-    def __init__(self, loop, *, expected_name=None, keepalive_units=20480, scripts=None, password=None):
+    def __init__(self, loop, *, expected_name=None, keepalive_units=20480, scripts=None, password=None, user_hook=True):
         from aioesphomeapi.client import APIClient
         self.loop = loop
         self.net = simnet.Net(loop)
@@ -34,6 +34,7 @@ class ClientTrace(Trace):
         self.session = 0
         self.cli = APIClient("10.0.0.1", 6053, password, keepalive=keepalive_units / 1024.0, expected_name=expected_name)
         self.user_stops = []
+        self.user_hook = user_hook      # start_connection(on_stop=...) given by the caller or left None
         loop.before_callback = self._before
         loop.after_callback = self._after
         loop.set_exception_handler(self._loop_exc)
@@ -137,7 +138,7 @@ class ClientTrace(Trace):
                     self.overlap_skipped = getattr(self, "overlap_skipped", 0) + 1
                     return "silent"
                 # the client holds a connection: the refusal is raised before the first await, probe it synchronously
-                coro = cli.start_connection(on_stop=self._user_on_stop)
+                coro = cli.start_connection(on_stop=self._user_on_stop if self.user_hook else None)
                 try:
                     coro.send(None)
                 except Exception as e:  # noqa
@@ -149,7 +150,7 @@ class ClientTrace(Trace):
                 return "cstart"
             for t in [t for t in self.tasks if t.done()]:
                 del self.tasks[t]
-            t = self.loop.create_task(cli.start_connection(on_stop=self._user_on_stop))
+            t = self.loop.create_task(cli.start_connection(on_stop=self._user_on_stop if self.user_hook else None))
             self.tasks[t] = "S"
             self.first_label[t] = "cstart"
             return None
@@ -250,6 +251,8 @@ async def run_scenario(loop, scenario, **kw):
             cmd = "raw:" + type(e).__name__
         wrote = sum(len(t.writes) for t in tr.net.transports) - writes_before
         alive = tr.conn is not None and tr.cli._connection is tr.conn and tr.conn.connection_state is S.CONNECTED
+        # a connection object that is still open although the client no longer refers to it
+        open_unreferenced = tr.conn is not None and tr.cli._connection is not tr.conn and tr.conn.connection_state is not S.CLOSED
         try:
             await tr.cli.start_connection()
             probe = "accepted"
@@ -257,5 +260,5 @@ async def run_scenario(loop, scenario, **kw):
             probe = "accepted"
         except APIConnectionError as e:
             probe = "already" if str(e).startswith("Already connected") else "error:" + str(e)[:40]
-        tr.final_probe = dict(busy=busy, probe=probe, cmd=cmd, wrote=wrote, alive=alive)
+        tr.final_probe = dict(busy=busy, probe=probe, cmd=cmd, wrote=wrote, alive=alive, open_unreferenced=open_unreferenced)
     return tr
